@@ -2490,6 +2490,7 @@ def demoOpq : V2.Opq :=
     nkeys_IsValidPublicUserKey := fun _ => false, nkeys_IsValidPublicCurveKey := fun _ => false,
     nkeys_IsValidPublicServerKey := fun _ => false, time_Parse := fun _ _ => false, net_ParseCIDR := fun _ => false,
     time_LoadLocation := fun _ => false, nkeys_IsValidPublicOperatorKey := fun _ => false,
+    UserClaims_HasEmptyPermissions := fun _ => some true,
     nkeys_FromPublicKey := fun _ => some 7, nkeys_Prefix := fun _ => 0,
     nkeys_Decode := fun _ _ => some (List.replicate 32 0),
     KeyPair_Verify := fun _ text _ => !(text == strBytes "a.b".toList),
@@ -2955,5 +2956,54 @@ theorem v1_decode_authentic (opq : V1.Opq) (tok : Str) (t : V1.I_Claims)
     | some raw =>
       simp only [hk, hr, Option.some.injEq, Bool.and_eq_true, decide_eq_true_eq, Bool.not_eq_true'] at h5
       exact ⟨hd, p, s, t', sig, kp, raw, h1, h3, h4, hk, hr, h5.1, h5.2⟩
+
+/-! ## C14: the scoped-signer check and the constructors around it, as translated
+
+`HasEmptyPermissions` compares with `reflect.DeepEqual` and stays a parameter. -/
+
+/-- `UserScope.ValidateScopedSigner`: no error exactly for a *user* claim whose issuer (read through `Claims()`) is
+the scope's key and which `HasEmptyPermissions`; any other kind of claim, a nil claim, another issuer → error -/
+theorem gen_validateScopedSigner (opq : V2.Opq) (us : V2.T_UserScope) (c : Option V2.I_Claims) :
+    V2.UserScope_ValidateScopedSigner us c opq =
+      match c with
+      | some (.UserClaims u) =>
+        if u.f_ClaimsData.f_Issuer != us.f_Key then some true
+        else (opq.UserClaims_HasEmptyPermissions u).map (fun b => !b)
+      | _ => some true := by
+  unfold V2.UserScope_ValidateScopedSigner
+  rcases c with _ | c
+  · simp
+  · cases c <;> simp [V2.UserClaims_Claims]
+    rename_i u
+    by_cases h : u.f_ClaimsData.f_Issuer = us.f_Key
+    · simp [h]
+      cases opq.UserClaims_HasEmptyPermissions u with
+      | none => rfl
+      | some b => cases b <;> rfl
+    · simp [h]
+
+/-- `SetScoped(true)` leaves a user claim without any permission or limit of its own; `SetScoped(false)` restores the
+unlimited defaults and touches nothing else -/
+theorem gen_setScoped (u : V2.T_UserClaims) :
+    V2.UserClaims_SetScoped u true =
+      some { u with f_User := { u.f_User with f_UserPermissionLimits := default } } ∧
+    V2.UserClaims_SetScoped u false =
+      some { u with f_User := { u.f_User with f_UserPermissionLimits := { u.f_User.f_UserPermissionLimits with
+        f_Limits := { f_UserLimits := { f_Src := [], f_Times := [], f_Locale := [] },
+                      f_NatsLimits := { f_Subs := -1, f_Data := -1, f_Payload := -1 } } } } } := by
+  constructor <;> rfl
+
+/-- `NewUserClaims`: nil for an empty subject; otherwise the subject is set, every limit is `NoLimit`, nothing else -/
+theorem gen_newUserClaims (subject : Str) :
+    V2.NewUserClaims subject = some
+      (if subject = [] then none
+       else some { f_ClaimsData := { (default : V2.T_ClaimsData) with f_Subject := subject },
+                   f_User := { (default : V2.T_User) with f_UserPermissionLimits :=
+                     { (default : V2.T_UserPermissionLimits) with
+                       f_Limits := { f_UserLimits := { f_Src := [], f_Times := [], f_Locale := [] },
+                                     f_NatsLimits := { f_Subs := -1, f_Data := -1, f_Payload := -1 } } } } }) := by
+  unfold V2.NewUserClaims
+  by_cases h : subject = [] <;> simp [h]
+  exact ⟨rfl, rfl, rfl⟩
 
 end Jwt.FnTie
